@@ -2542,6 +2542,10 @@ func (e *lbEngine) execCall(in *lbInst, st *lstate, call *ssa.Call) *lstate {
 				} else {
 					e.require(in, st, call, "C03/R6", "error position within the input", []string{"clamped inside File.Position"}, []lin{linConst(0)})
 				}
+				if e.w.posEndRaw {
+					what2 = append(what2, "end <= len(Buffer) (Position.End is the argument as it came)")
+					need2 = append(need2, linAtom(e.N).sub(q))
+				}
 				e.require(in, st, call, "C09/R5", "error range is ordered", what2, need2)
 			}
 		}
@@ -2755,10 +2759,65 @@ func (w *World) positionSummary() []resolvedArg {
 			return false
 		}
 	}
+	// the values an argument can be: through phis and through the builtin min (a clamp written as min(end, len(Buffer)))
+	var origins func(v ssa.Value, seen map[ssa.Value]bool) []ssa.Value
+	origins = func(v ssa.Value, seen map[ssa.Value]bool) []ssa.Value {
+		var res []ssa.Value
+		for _, o := range phiOrigins(v) {
+			if seen[o] {
+				continue
+			}
+			seen[o] = true
+			if c, ok := o.(*ssa.Call); ok {
+				if bi, ok := c.Call.Value.(*ssa.Builtin); ok && bi.Name() == "min" {
+					for _, a := range c.Call.Args {
+						res = append(res, origins(a, seen)...)
+					}
+					continue
+				}
+			}
+			res = append(res, o)
+		}
+		return res
+	}
+	minOfBufLen := func(v ssa.Value) bool {
+		c, ok := v.(*ssa.Call)
+		if !ok {
+			return false
+		}
+		if bi, ok := c.Call.Value.(*ssa.Builtin); !ok || bi.Name() != "min" {
+			return false
+		}
+		for _, a := range c.Call.Args {
+			if isBufLen(a) {
+				return true
+			}
+		}
+		return false
+	}
+	// what is stored as Position.End: the raw `end` parameter is returned to the caller as it came
+	w.posEndRaw = false
+	for _, b := range fn.Blocks {
+		for _, in := range b.Instrs {
+			st, ok := in.(*ssa.Store)
+			if !ok {
+				continue
+			}
+			if fa, ok := st.Addr.(*ssa.FieldAddr); ok && fieldAddrName(fa) == "End" {
+				if _, isAlloc := fa.X.(*ssa.Alloc); isAlloc {
+					for _, o := range phiOrigins(st.Val) {
+						if o == ssa.Value(fn.Params[2]) {
+							w.posEndRaw = true
+						}
+					}
+				}
+			}
+		}
+	}
 	var out []resolvedArg
 	for _, c := range calls {
-		ra := resolvedArg{clamped: e.posProbe[c]}
-		for _, o := range phiOrigins(c.Call.Args[1]) {
+		ra := resolvedArg{clamped: e.posProbe[c] || minOfBufLen(c.Call.Args[1])}
+		for _, o := range origins(c.Call.Args[1], map[ssa.Value]bool{}) {
 			switch {
 			case o == ssa.Value(fn.Params[1]):
 				ra.origins = append(ra.origins, "pos")
